@@ -1,5 +1,6 @@
 import I2N.Lemmas.Trav
 import I2N.Lemmas.TravProgress
+import I2N.Lemmas.TravTerm
 import I2N.Model.TravMon
 /-!
 # C02 — Traversal terminates and every selected test gets a definite result  (partial by design)
@@ -299,5 +300,130 @@ def sNeg : State :=
   runSchedule gNeg 9 (initState gNeg 2 []) [(0, ⟨none, 0⟩), (0, ⟨some "PASS", 1⟩), (1, ⟨none, 0⟩)]
 
 theorem dead_worker_keeps_mark : (sNeg.nd 2).started = some 1 ∧ (sNeg.wd 1).pc.isFailed = true := by decide
+
+/-! ## Termination of the loop between two suspension points (`Lemmas/TravTerm.lean`)
+
+`runLoop g w fuel s evs` runs worker `w` from one suspension point to the next; `fuel` bounds the number of consecutive
+iterations without suspension and the model emits `raise … "fuel"` when it runs out.  The theorems below show that
+this branch is dead for `fuel ≥ bound g`, an explicit function of the static graph
+(`bound g = 2·(2·|nodes|+3)·|edge ends| + 2·|nodes| + 4`), i.e. a worker never spins silently between two suspensions,
+whatever the state of the other workers. -/
+
+open I2N.Trav.Term in
+/-- **Termination of a block.**  Graph: edges recorded at both ends, acyclic (`Ranked`).  State (`Good`): a dynamic
+record for every node, registers for every class, no unexplored flat node, the path of the worker has the shape the walk
+gives it (down from the root, then up; in particular `[root]`).  Then with `fuel ≥ bound g` the loop ends by itself —
+in a suspension (test started, back-off sleep), the exit through the shared root or an exception of the traversal —
+and its result does not depend on the fuel: `runLoopO` is `runLoop` with the exhaustion of the fuel made explicit. -/
+theorem loop_terminates (g : Graph) (d : Nat → Nat) (hr : Ranked g d) (hsym : EdgeSym g) (w : Nat) (s : State)
+    (evs : List Event) (hg : Good g d w s) (fuel : Nat) (hf : bound g ≤ fuel) :
+    ∃ r, runLoopO g w (bound g) s evs = some r ∧ runLoop g w fuel s evs = r :=
+  runLoop_terminates g d hr hsym w s evs hg fuel hf
+
+open I2N.Trav.Term in
+/-- the measure behind it: every iteration that neither suspends nor leaves the loop strictly lowers `phi`, which is
+below `bound g` in good states, and leads to a good state again -/
+theorem iteration_lowers_measure (g : Graph) (d : Nat → Nat) (hr : Ranked g d) (hsym : EdgeSym g) (w : Nat) (s : State)
+    (hg : Good g d w s) (hc : (iterL g s w).2.2 = .cont) :
+    phi g (iterL g s w).1 w < phi g s w ∧ phi g s w < bound g ∧ Good g d w (iterL g s w).1 :=
+  ⟨(iterL_cont g d hr hsym s w hg hc).1, phi_lt_bound g d hr s w hg.walk, (iterL_cont g d hr hsym s w hg hc).2⟩
+
+open I2N.Trav.Term in
+/-- **No silent spinning after a back-off or at the start**: a worker standing at the root (initially, and after every
+back-off sleep, which resets the path) reaches its next suspension, the exit or an exception within `bound g`
+iterations, whatever the marks, results, registers and paths of the other workers are. -/
+theorem loop_terminates_from_root (g : Graph) (d : Nat → Nat) (hr : Ranked g d) (hsym : EdgeSym g) (w : Nat) (s : State)
+    (evs : List Event) (hn : s.nodes.length = g.nodes.length) (hc : ClsOK g s) (he : Explored g s)
+    (hp : (s.wd w).path = [g.root]) (fuel : Nat) (hf : bound g ≤ fuel) :
+    ∃ r, runLoopO g w (bound g) s evs = some r ∧ runLoop g w fuel s evs = r :=
+  runLoop_terminates g d hr hsym w s evs (good_at_root g d w s hn hc he hp) fuel hf
+
+open I2N.Trav.Term in
+/-- the scheduler step of a worker that is in the loop or was bouncing does not depend on the fuel beyond `bound g`
+(the driver uses 100000) -/
+theorem resume_loop_fuel_independent (g : Graph) (d : Nat → Nat) (hr : Ranked g d) (hsym : EdgeSym g) (w : Nat) (s : State)
+    (out : Outcome) (hg : Good g d w s) (hpc : (s.wd w).pc.node? = none) (fuel : Nat) (hf : bound g ≤ fuel) :
+    resume g s w out fuel = resume g s w out (bound g) := by
+  obtain ⟨r, h1, h2⟩ := runLoop_terminates g d hr hsym w s [] hg fuel hf
+  have h3 := runLoop_of_runLoopO g w (bound g) s [] r h1 (bound g) (Nat.le_refl _)
+  unfold resume
+  split
+  · rw [h2, h3]
+  · rw [h2, h3]
+  · next heq => rw [heq] at hpc; cases hpc
+  · rfl
+  · rfl
+
+open I2N.Trav.Term in
+/-- pre-parsed graphs (the only flat node is the shared root), initial state: every worker's first block terminates -/
+theorem first_block_terminates (g : Graph) (hr : rankedB g = true) (hsym : edgeSymB g = true) (hflat : noFlatB g = true)
+    (ncls : Nat) (hcls : ∀ n, n < g.nodes.length → (g.node n).cls < ncls)
+    (store : List (String × List (String × String))) (w : Nat) (hw : w < g.workers.length) (fuel : Nat)
+    (hf : bound g ≤ fuel) :
+    ∃ r, runLoopO g w (bound g) (initState g ncls store) [] = some r ∧ runLoop g w fuel (initState g ncls store) [] = r := by
+  refine runLoop_terminates g (depth g) (rankedB_sound hr) (edgeSymB_sound hsym) w _ [] ?_ fuel hf
+  refine good_at_root g _ w _ (by simp [initState]) (clsOK_init g ncls store [] hcls) (explored_of_noFlat hflat _) ?_
+  unfold initState State.wd
+  simp only [List.getD_eq_getElem?_getD, List.getElem?_map, List.getElem?_eq_getElem hw]
+  rfl
+
+/-! ### non-vacuity and necessity of the hypotheses -/
+
+/-- a diamond of dry-run nodes below the root, one worker -/
+def gDia : Graph :=
+  { workers := [{ id := "net1", swarm := "localhost" }],
+    nodes := [{ cls := 0, owner := some 0, name := "root.net1", pfx := "0", sharedRoot := true, cleanup := [(1, ["vm1"])] },
+              { cls := 1, owner := some 0, name := "a.net1", pfx := "1", dryRun := true, setup := [(0, ["vm1"])],
+                cleanup := [(2, ["vm1"]), (3, ["vm1"])] },
+              { cls := 2, owner := some 0, name := "b.net1", pfx := "2", dryRun := true, setup := [(1, ["vm1"])],
+                cleanup := [(4, ["vm1"])] },
+              { cls := 3, owner := some 0, name := "c.net1", pfx := "3", dryRun := true, setup := [(1, ["vm1"])],
+                cleanup := [(4, ["vm1"])] },
+              { cls := 4, owner := some 0, name := "d.net1", pfx := "4", dryRun := true, setup := [(2, ["vm1"]), (3, ["vm1"])] }],
+    root := 0 }
+
+example : I2N.Trav.Term.bound gDia = 274 := by decide
+example := first_block_terminates gDia (by decide) (by decide) (by decide) 5 (by decide) [] 0 (by decide) 100000 (by decide)
+/-- the whole dry run of the diamond is one block of more than 14 iterations that ends with the exit event -/
+example : (runLoop gDia 0 (I2N.Trav.Term.bound gDia) (initState gDia 5 []) []).2 = [Event.exit "net1"] ∧
+    (runLoop gDia 0 14 (initState gDia 5 []) []).2 = [Event.raise "net1" "fuel"] := by decide
+/-- the hypotheses of `iteration_lowers_measure` are met by the first iteration (a push of the root's child) -/
+example : (match (iterL gDia (initState gDia 5 []) 0).2.2 with | .cont => true | _ => false) = true ∧
+    I2N.Trav.Term.phi gDia (initState gDia 5 []) 0 = 261 ∧
+    I2N.Trav.Term.phi gDia (iterL gDia (initState gDia 5 []) 0).1 0 = 260 := by decide
+
+/-- Necessity of acyclicity (model level; real graphs are acyclic by construction): on a graph with a cycle `a ⇄ b`
+the worker pushes parents for ever — the loop does run out of fuel. -/
+def gCyc : Graph :=
+  { workers := [{ id := "net1", swarm := "localhost" }],
+    nodes := [{ cls := 0, owner := some 0, name := "root.net1", pfx := "0", sharedRoot := true, cleanup := [(1, ["vm1"])] },
+              { cls := 1, owner := some 0, name := "a.net1", pfx := "1", dryRun := true, setup := [(0, ["vm1"]), (2, ["vm1"])],
+                cleanup := [(2, ["vm1"])] },
+              { cls := 2, owner := some 0, name := "b.net1", pfx := "2", dryRun := true, setup := [(1, ["vm1"])],
+                cleanup := [(1, ["vm1"])] }],
+    root := 0 }
+
+theorem cyclic_graph_spins : edgeSymB gCyc = true ∧ I2N.Trav.Term.rankedB gCyc = false ∧
+    (runLoop gCyc 0 20 (initState gCyc 3 []) []).2 = [Event.raise "net1" "fuel"] ∧
+    ((runLoop gCyc 0 20 (initState gCyc 3 []) []).1.wd 0).path.length = 19 := by decide
+
+/-- Necessity of `ClsOK`: with registers for two of the five classes only, the drops of the other classes are lost and
+the worker walks up and down between `a` and `b` for ever. -/
+theorem missing_registers_spin :
+    (runLoop gDia 0 25 (initState gDia 2 []) []).2 = [Event.raise "net1" "fuel"] := by decide
+
+/-- Necessity of `Explored` (model level): a flat node that is nobody's child can never be unrolled, so every cleanup
+is postponed by a jump back to the root that drops nothing.  In the graphs the parser and the harness build, every flat
+node is a child of the shared root and gets unrolled by the first worker that picks it; the termination of the
+postponement phase then rests on the pick counters (fewest picks first) and is NOT covered by the theorems above. -/
+def gUnx : Graph :=
+  { workers := [{ id := "net1", swarm := "localhost" }],
+    nodes := [{ cls := 0, owner := some 0, name := "root.net1", pfx := "0", sharedRoot := true, cleanup := [(1, ["vm1"])] },
+              { cls := 1, owner := some 0, name := "a.net1", pfx := "1", dryRun := true, setup := [(0, ["vm1"])] },
+              { cls := 2, owner := none, name := "f", pfx := "2", flat := true, setless := "zzz" }],
+    root := 0 }
+
+theorem unexplored_orphan_spins : I2N.Trav.Term.rankedB gUnx = true ∧ edgeSymB gUnx = true ∧
+    (runLoop gUnx 0 25 (initState gUnx 3 []) []).2 = [Event.raise "net1" "fuel"] := by decide
 
 end I2N.Props.C02
